@@ -41,6 +41,8 @@ pub enum TraceOp {
     Release { by: String, key: String, result: String },
     /// ownership of `query` moves to `new_owner` (owned by thread `new_owner_thread`)
     Transfer { by: String, query: String, new_owner: String, new_owner_thread: String },
+    /// marker written by the harness (e.g. "a user panic starts unwinding on this thread")
+    Mark { by: String, what: String },
 }
 
 static TRACE_ON: std::sync::atomic::AtomicBool = std::sync::atomic::AtomicBool::new(false);
@@ -59,6 +61,11 @@ pub(crate) fn trace(op: impl FnOnce() -> TraceOp) {
     if TRACE_ON.load(std::sync::atomic::Ordering::SeqCst) {
         TRACE.lock().unwrap_or_else(|e| e.into_inner()).push(op());
     }
+}
+
+/// Lets the harness interleave its own markers with the protocol operations.
+pub fn trace_mark(what: &str) {
+    trace(|| TraceOp::Mark { by: me(), what: what.to_string() });
 }
 
 pub(crate) fn me() -> String {
